@@ -36,6 +36,22 @@ PROP = "C13"
 # (b) state digest
 # --------------------------------------------------------------------------------------
 TABLE_MODULES = ("pyubx2.ubxtypes_", "pyubx2.ubxvariants")
+TABLE_NAMES = [None]
+
+
+def snapshot_table_names():
+    """(module, global) pairs that count as tables: public globals of the table modules that exist at
+    import time and are not empty containers."""
+    names = set()
+    for name, m in sys.modules.items():
+        if name.startswith(TABLE_MODULES):
+            for k, v in vars(m).items():
+                if k.startswith("_"):
+                    continue
+                if isinstance(v, (dict, list, set)) and len(v) == 0:
+                    continue
+                names.add((name, k))
+    TABLE_NAMES[0] = names
 
 
 def module_digest(scope="tables"):
@@ -117,6 +133,13 @@ def module_digest(scope="tables"):
             for k in sorted(vars(m)):
                 if k in ("__builtins__", "__cached__", "__loader__", "__spec__"):
                     continue
+                if scope == "tables":
+                    # the tables are the public, non-empty containers the modules define at import;
+                    # private helpers and lazily filled (initially empty) lookup caches are not tables
+                    if k.startswith("_"):
+                        continue
+                    if TABLE_NAMES[0] is not None and (name, k) not in TABLE_NAMES[0]:
+                        continue
                 feed(k)
                 walk(vars(m)[k])
     return h.hexdigest(), nodes[0]
@@ -195,6 +218,15 @@ def build_events():
 
     ev["user_mutates_list_attribute"] = _mutate_nominal_list
     CLSID_OF["x:user_mutates_list_attribute"] = "0a31"
+    # the plain-text lookups of __str__ (class / message / GNSS names) with values the tables do not know
+    ev["print:ACK-ACK:unknown_class"] = lambda: _inspect(UBXReader.parse(ref.frame(0x05, 0x01, b"\x99\x01")))
+    ev["print:ACK-NAK:unknown_class"] = lambda: _inspect(UBXReader.parse(ref.frame(0x05, 0x00, b"\x98\x77")))
+    ev["print:CFG-MSG:unknown_class"] = lambda: _inspect(UBXReader.parse(ref.frame(0x06, 0x01, b"\x97\x01"), msgmode=POLL))
+    ev["print:CFG-MSG:unknown_id"] = lambda: _inspect(UBXReader.parse(ref.frame(0x06, 0x01, b"\x01\xee"), msgmode=POLL))
+    ev["print:NAV-SAT:unknown_gnss"] = lambda: _inspect(UBXReader.parse(ref.frame(0x01, 0x35, bytes([1, 2, 3, 4, 1, 1, 0, 0, 0x63]) + bytes(11))))
+    ev["parse:unknown_class_99"] = lambda: _inspect(UBXReader.parse(ref.frame(0x99, 0x01, b"abc")))
+    ev["parse:unknown_class_98"] = lambda: _inspect(UBXReader.parse(ref.frame(0x98, 0x77, b"abc")))
+    ev["parse:unknown_class_97"] = lambda: _inspect(UBXReader.parse(ref.frame(0x97, 0x01, b"abc")))
     ev["null_payload"] = lambda: _inspect(UBXMessage("CFG", "CFG-MSG", POLL))
     ev["unknown_get"] = lambda: _inspect(UBXReader.parse(ref.frame(0x99, 0x88, b"abc")))
     # helpers
@@ -264,7 +296,8 @@ def events():
 
 
 def probe_names(ev):
-    return [k for k in ev if k.startswith(("parse:", "build:", "config_", "helpers", "fail:kw", "fail:bad_checksum", "read:q=1"))][:60]
+    base = [k for k in ev if k.startswith(("parse:", "build:", "config_", "helpers", "fail:kw", "fail:bad_checksum", "read:q=1")) and k.split(":pbf")[0].split(":", 1)[-1] in FULL_LABELS | {"helpers"}][:52]
+    return base + [k for k in ev if k.startswith(("parse:unknown_class", "print:"))]
 
 
 # --------------------------------------------------------------------------------------
@@ -531,6 +564,7 @@ def replay_inproc(case):
     elif k == "immut_digest":
         _eval_block(("immut", case["indices"], case["extra"]), acc)
     elif k == "history":
+        snapshot_table_names()
         D_IMPORT[0], D_IMPORT[1] = module_digest("tables")[0], module_digest("other")[0]
         judge_history(tuple(case["events"]), acc, digest=True)
     elif k == "sched" and case.get("digest"):
@@ -622,6 +656,7 @@ def run_tier(tier, t0):
     q = tier == "quick"
     ents = C.entries()
     idx = list(range(len(ents)))
+    snapshot_table_names()
     D_IMPORT[0], D_IMPORT[1] = module_digest("tables")[0], module_digest("other")[0]  # the parent never applies an event: import state
     blocks = [("immut", idx[i::32], i == 0) for i in range(32)]
     ev = events()
